@@ -36,9 +36,13 @@ structure Flags where
       whose input slip was rewritten (multiplier > 1, `atrSpendsOriginalKey` off) spends a key that is not in
       the utxo set: with the verdict propagated the node rejects such a block instead of winding it -/
   txVerdictPropagated : Bool := false
+  /-- transaction.rs:412-463 `create_rebroadcast_bound_transaction` — the payload OUTPUT of a rebroadcast bound triple is the slip
+      the caller prepared (amount × multiplier − fee). Pinned: the output is a copy of the payload INPUT (amount × multiplier)
+      while the fee is booked in total_fees_atr, so the block creates `fee` units. Used by `Saito.AtrScan.acct` only. -/
+  tripleFeeDeducted : Bool := false
   deriving Repr, DecidableEq
 
-def Flags.fixed : Flags := ⟨true, true, true, true, true⟩
+def Flags.fixed : Flags := ⟨true, true, true, true, true, true⟩
 
 /-- the fields of a utxo key -/
 structure Slip where
